@@ -121,6 +121,9 @@ def operand_cases(rng, tier, arm):
                 w = (1 << width) - 1
             elif k % 4 == 2:
                 w &= rng.getrandbits(width)
+            elif k % 4 == 3 and width == 32:
+                # the zero shift-amount corner (imm5 = 0 means LSR/ASR #32, RRX or no shift)
+                w &= ~(0x1F << 7) if is_arm else ~((7 << 12) | (3 << 6))
             w = constrain(w, ent, rng)
             cfgd = copy.deepcopy(statelib.DEFAULT_CFG)
             cfgd['arch_version'] = 7
